@@ -60,6 +60,10 @@ TEMPLATES = [
     "@P(1, DECO('a'))\nclass A(P(2, Bs), P(3, Bs2), metaclass=P(4, Mt)):\n    x = P(5)",
     "@P(1, DECO('a'))\n@P(2, DECO('b'))\nclass A(P(3, Bs)):\n    P(4)",
     "class A(P(1, Q), a=P(2, 1), c=P(3, 2)):\n    pass",
+    # annotated assignments to attribute / subscript targets: the value first, like the plain form
+    "P(1, o).a: int = P(2, 5)",
+    "P(1, b)[P(2, 'k')]: int = P(3, 5)",
+    "P(1, o).sub.c: 'str' = P(2, 5)\nx: int = P(3, 1)\ny: int",
     # a decorated class WITHOUT bases or keywords: decorators first, then the body, then the application
     "@P(1, DECO('a'))\nclass A:\n    x = P(2, 1)\n    def m(self, d=P(3, 2)):\n        return d",
     "@P(1, DECO('a'))\n@P(2, DECO('b'))\nclass A():\n    P(3)\n    class In:\n        P(4)",
